@@ -615,7 +615,7 @@ static void partHist(vh::Reporter& rep, const vh::Args&) {
                     for (RWell* T : targets(w, pattern)) for (auto& c : T->conns) if (matches(c, q)) {
                         c.mult *= f; c.lastOp = "WPIMULT-selected"; T->touched.insert({c.i, c.j, c.k}); ++effectiveOps; rep.count("connections_scaled_selected");
                     }
-                } else if (x < 0.63) {
+                } else if (x < 0.61) {
                     bool free = true; for (RWell* T : targets(w, pattern)) free = free && !T->wideDone;
                     if (!free) continue;       // one well-wide factor per well and report step
                     const double f = std::round(rng.loguniform(0.1, 5) * 1000) / 1000;
@@ -624,6 +624,22 @@ static void partHist(vh::Reporter& rep, const vh::Args&) {
                     for (RWell* T : targets(w, pattern)) {
                         T->wideDone = true;
                         for (auto& c : T->conns) { c.mult *= f; c.lastOp = "WPIMULT-well"; T->touched.insert({c.i, c.j, c.k}); ++effectiveOps; rep.count("connections_scaled_wellwide"); }
+                    }
+                } else if (x < 0.71) {
+                    // CSKIN: a new skin factor for the selected connections.  Kh, r0, rw stay, the connection factor follows the
+                    // relation: CF = 2 pi Kh / (ln(r0/rw) + S_new) (times the WPIMULT factors it has collected)
+                    Sel q = drawSel(W); q.C1 = q.C2 = 0;
+                    const double newSkin = std::round(rng.uniform(0.0, 6.0) * 100) / 100;
+                    bool usable = true;
+                    for (RWell* T : targets(w, pattern)) for (auto& c : T->conns) if (matches(c, q) && (c.ref.overdetermined || !(std::log(c.ref.r0 / c.ref.rw) + newSkin > 0.05))) usable = false;
+                    if (!usable) continue;
+                    auto it3 = [&](int v) { return v > 0 ? std::to_string(v) : std::string("1*"); };
+                    s << "CSKIN\n '" << (pattern ? "W*" : W.name) << "' " << it3(q.I) << " " << it3(q.J) << " " << it3(q.K) << " " << it3(q.K) << " " << num(newSkin) << " /\n/\n";
+                    rep.cover("operation", "CSKIN");
+                    for (RWell* T : targets(w, pattern)) for (auto& c : T->conns) if (matches(c, q)) {
+                        c.ref.skin = newSkin;
+                        c.ref.CF = TWO_PI * c.ref.Kh / (std::log(c.ref.r0 / c.ref.rw) + newSkin);
+                        c.lastOp = "CSKIN"; T->touched.insert({c.i, c.j, c.k}); ++effectiveOps; rep.count("connections_reskinned");
                     }
                 } else if (x < 0.83) {
                     const Sel q = drawSel(W);
